@@ -1,5 +1,5 @@
 (* C06 -- Generated function bodies have sound control flow and define before use.  ONLY property theorems here. *)
-From QV Require Import model.Base model.Lang model.Types model.Tir model.CfgCheck model.Builder model.Passes model.TirCase gen.GenE0 proofs.CfgProofs.
+From QV Require Import model.Base model.Lang model.Types model.Tir model.CfgCheck model.Builder model.Passes model.TirCase gen.GenE0 proofs.CfgProofs proofs.BuilderInv.
 Open Scope nat_scope.
 
 (* FULL statement (over ALL programs and class environments): every accepted binding or callback is translated to a
@@ -36,6 +36,18 @@ Definition f18_prog : callback := CStmt (SBlock [SSwitch (EInt 1) [] None]).
 Example C06_repaired_inputs :
   cfg_case E0 f2_prog = 1%Z /\ cfg_case E0 f2b_prog = 1%Z /\ cfg_case E0 f14_prog = 1%Z /\ cfg_case E0 f18_prog = 1%Z.
 Proof. vm_compute. repeat split. Qed.
+
+(* what the translator (model of typedexpr.rs + tir/builder.rs, any callback, any class environment, from ANY builder state, whether the
+   walk succeeds, fails or panics) never does: renumber or retype a local, remove a block, touch a block that already has its terminator --
+   so a jump, once written, keeps its meaning and a label keeps denoting the same block -- or drop a diagnostic *)
+Theorem C06_builder_frame : forall E cb s,
+  let s' := snd (walk_callback E cb s) in
+  (exists more, bs_locals s' = bs_locals s ++ more) /\
+  List.length (bs_blocks s) <= List.length (bs_blocks s') /\
+  (forall i b, nth_error (bs_blocks s) i = Some b -> b_term b <> None -> nth_error (bs_blocks s') i = Some b) /\
+  (exists more, bs_diags s' = bs_diags s ++ more).
+Proof. exact builder_frame. Qed.
+Print Assumptions C06_builder_frame.
 
 (* non-vacuity of the checker: it rejects a body whose reachable block ends in the unreachable marker, one that reads
    an unassigned temporary, and one that jumps out of range *)
